@@ -364,6 +364,10 @@ CULPRITS = [
     ("shift-neg", "one << (zero - one)", "infix:<<", False),
     ("unwrap-none", "opt.unwrap()", "call:", True),
     ("str-index-oob", 'wrd[seven]', "index:", False),
+    ("parse-int", 'wrd.parse_int()', "call:", True),
+    # the culprit sits in a helper function of the same file; the statement only starts the recursion
+    # (the culprit is the recursive function: the VM notices the limit at whatever instruction of it is current)
+    ("stack-overflow", "fn deep(n: int) -> int {\n    deep(n + 1)\n}", "fn:deep", False, "fn deep(n: int) -> int {\n    deep(n + 1)\n}\n", "deep(0)"),
 ]
 
 PRELUDE = "    let one = 1;\n    let zero = 0;\n    let seven = 7;\n    let lst = [1, 2, 3];\n    let wrd = \"ab\";\n    let opt: ?int = none;\n"
@@ -374,34 +378,35 @@ def runtime_cases(rng, n_layout):
     in main / in a called function / in an imported module; caught (prints e.line, e.column, e.filename)
     or uncaught; with random leading layout (blank lines, comments, indentation, unicode before it)."""
     out = []
-    for name, culprit, kind, catchable in CULPRITS:
+    for name, culprit, kind, catchable, *extra in CULPRITS:
+        helper, starter = (extra + ["", None])[:2] if extra else ("", None)
         for where in ("main", "callee", "module", "module-global-fn"):
             for caught in (True, False):
                 for _ in range(n_layout):
                     pad_lines = "".join(rng.choice(["\n", "// é comment\n", "/* block\n comment */\n", "   \n"])
                                         for _ in range(rng.randrange(0, 4)))
                     pre = rng.choice(["", "  ", "let s = \"é∑\"; ", "/* é */ ", "\t"])
-                    stmt = f"{pre}let r = {culprit};\n    println(r);\n"
+                    stmt = f"{pre}let r = {starter or culprit};\n    println(r);\n"
                     body = PRELUDE + pad_lines + "    " + stmt
                     if caught:
                         call = "    try {\n%s    } catch e {\n        " + PRINT_E + "\n    }\n"
                     else:
                         call = "%s"
                     if where == "main":
-                        main = pad_lines + "fn main() {\n" + (call % body) + "}\n"
+                        main = helper + pad_lines + "fn main() {\n" + (call % body) + "}\n"
                         mods = {}
                         file = "main"
                     elif where == "callee":
-                        main = "fn work() {\n" + body + "}\n" + pad_lines + "fn main() {\n" + (call % "    work();\n") + "}\n"
+                        main = helper + "fn work() {\n" + body + "}\n" + pad_lines + "fn main() {\n" + (call % "    work();\n") + "}\n"
                         mods = {}
                         file = "main"
                     else:
                         # (a module without globals has an empty '@init' routine, finding V31: keep one global)
-                        lib = "let LIBG = 1;\n" + pad_lines + "pub fn work() {\n" + body + "}\nfn main() { println(LIBG); }\n"
+                        lib = "let LIBG = 1;\n" + helper + pad_lines + "pub fn work() {\n" + body + "}\nfn main() { println(LIBG); }\n"
                         main = "import work from lib;\nfn main() {\n" + (call % "    work();\n") + "}\n"
                         if where == "module-global-fn":
                             # the handler sits in `work` itself: a throw that crosses two frames is finding V11 (open)
-                            lib = ("let LIBG = 1;\nfn inner() {\n" + body + "}\n" + pad_lines
+                            lib = ("let LIBG = 1;\n" + helper + "fn inner() {\n" + body + "}\n" + pad_lines
                                    + "pub fn work() {\n" + (call % "    inner();\n") + "}\nfn main() { println(LIBG); }\n")
                             main = "import work from lib;\nfn main() {\n    work();\n}\n"
                         mods = {"lib": lib}
